@@ -60,11 +60,15 @@ CONTRACTS = [
                  C("entries_of_other_names_untouched",
                    "forall(p, 'Val[Path]', implies(forall(i, 'int', implies(0 <= i and i < seq_len(self._deps_output_paths), p != Path_join(self._output_path, select(self._deps_output_paths, i)[0]._name))),"
                    " (p in g_entries) == old(p in g_entries) and (p in g_link) == old(p in g_link) and implies(p in g_link, g_link[p] == old(g_link[p]))))"),
+                 C("foreign_entries_are_never_replaced",
+                   "forall(p, 'Val[Path]', implies(old((p in g_entries) and not (p in g_link)), (p in g_entries) and not (p in g_link)))"),
                  C("synchronous", "result.pid is None and result.returncode is None and result.slot is None"),
              ],
              raises={"CombineOutputFileConflict": [C("a_foreign_entry_is_in_the_way", "exists(i, 'int', 0 <= i and i < seq_len(self._deps_output_paths) and"
                                                      " (Path_join(self._output_path, select(self._deps_output_paths, i)[0]._name) in g_entries) and"
-                                                     " not (Path_join(self._output_path, select(self._deps_output_paths, i)[0]._name) in g_link))")],
+                                                     " not (Path_join(self._output_path, select(self._deps_output_paths, i)[0]._name) in g_link))"),
+                                                   C("foreign_entries_are_never_replaced",
+                                                     "forall(p, 'Val[Path]', implies(old((p in g_entries) and not (p in g_link)), (p in g_entries) and not (p in g_link)))")],
                      "OSError+": []},
              loops={0: Loop(header="for (dep_id, dep_dir) in self._deps_output_paths:", index="i", modifies=["g_entries", "g_link"],
                             invariant=[
@@ -76,5 +80,6 @@ CONTRACTS = [
                                   "forall(p, 'Val[Path]', implies(forall(k, 'int', implies(0 <= k and k < i, p != Path_join(self._output_path, select(self._deps_output_paths, k)[0]._name))),"
                                   " (p in g_entries) == at_loop(p in g_entries) and (p in g_link) == at_loop(p in g_link) and implies(p in g_link, g_link[p] == at_loop(g_link[p]))))"),
                                 C("dirs_unchanged", "forall(d, 'Val[Path]', (d in g_dirs) == at_loop(d in g_dirs))"),
+                                C("foreign_entries_kept", "forall(p, 'Val[Path]', implies(at_loop((p in g_entries) and not (p in g_link)), (p in g_entries) and not (p in g_link)))"),
                             ])}),
 ]
